@@ -142,17 +142,9 @@ fn regex<'a, T: Queryable>(lhs: State<'a, T>, rhs: State<'a, T>, substr: bool) -
 
 fn prepare_regex(pattern: String, substring: bool) -> String {
     let pattern = if !substring {
-        let pattern = if pattern.starts_with('^') {
-            pattern
-        } else {
-            format!("^{}", pattern)
-        };
-        let pattern = if pattern.ends_with('$') {
-            pattern
-        } else {
-            format!("{}$", pattern)
-        };
-        pattern
+        // match() has to cover the entire string: anchor the pattern as a whole,
+        // `a|b` must not become `^a|b$`
+        format!("^(?:{})$", pattern)
     } else {
         pattern.to_string()
     };
